@@ -161,6 +161,34 @@ def fileTokens (content : String) : List String :=
   let lines := if lines.getLast? == some "" then lines.dropLast else lines
   lines.flatMap fun l => l.splitOn ","
 
+/- ## look-ups and branch indexes after pruning, on the raw answers of the implementation -/
+
+/-- `TipNode(q)` for every name `q` the index answers: the node returned carries that name, has one
+    neighbour and is the tip standing at the reported position of `Tips()` -/
+def tipNodesOK (after : T) (existing tnNames : List String) (tnNeigh tnPos : List Int) : Bool :=
+  tnNames == existing && tnNeigh == existing.map (fun _ => (1 : Int)) && tnPos.length == existing.length &&
+  (List.zip existing tnPos).all fun qp => decide (qp.2 ≥ 0) && after.tipNames[qp.2.toNat]? == some qp.1
+
+/-- One row per branch, in `Edges()` order (the order of `T.splits`): the bitset of the branch has one
+    bit per tip and bit `TipIndex(q)` is set iff `q` is below the branch — every branch carries the
+    split it induces on the NEW tip set (the bitsets are rebuilt after the tip index). -/
+def bitsetsOK (after : T) (existing : List String) (tipIdx : List Int) (rows : List (Option (List Bool))) : Bool :=
+  rows.length == after.splits.length &&
+  (List.zip after.splits rows).all fun sr =>
+    match sr.2 with
+    | none => false
+    | some bits =>
+      bits.length == after.tipNames.length &&
+      (List.zip existing tipIdx).all fun qi =>
+        decide (qi.2 ≥ 0) && bits[qi.2.toNat]? == some (sr.1.below.contains qi.1)
+
+/-- `CommonEdges` of the pruned tree with an independently rebuilt, freshly indexed copy `c`:
+    `[edges(c,c), common(c,c), edges(t,c), common(t,c)]` — the pruned tree shares every branch with it -/
+def commonEdgesOK (ce : List Int) : Bool :=
+  match ce with
+  | [a, c1, b, c2] => decide (a ≥ 0) && a == b && c1 == c2
+  | _ => false
+
 /- ## the whole command (`pruneAll`) -/
 
 /-- every input tree satisfies the hypotheses of the theorems for the names the flags select -/
